@@ -134,9 +134,48 @@ theorem C15_section_fidelity (o : Options) (fmt : Format) (s : DState) (p bytes 
   obtain ⟨s', hrun, hfs, _, hd⟩ := processSection_clean_dry H hdry
   exact ⟨s', hrun, hfs, hd.hadFailure, hd.par⟩
 
+/-! ### `guess_filepath` when a rename or a copy is reversed
+
+    Reversing `rename a → b` (or `copy a → b`) has to start from `b`, the file which the patch made.  Before the C++ fix "reverse a
+    rename or copy from the file which it made" the old name was tried first, so with `a` present as well — the other half of two
+    files being swapped, a chain `a → b`, `c → a` — the reverse run patched `a`.  The new first rule looks at the new name alone. -/
+
+/-- **under -R the file to patch of a rename / copy is the new name whenever that exists — whether or not the old name exists** -/
+theorem guessFilepath_reverse_made (p : Patch) (s : DState)
+    (hop : p.operation = .rename ∨ p.operation = .copy)
+    (hnew : (s.fs.stat (absPath s p.newPath)).isSome = true) :
+    (guessFilepath p true).run s = (.ok p.newPath, s) := by
+  unfold guessFilepath
+  rw [DriverFacts.run_bind, DriverFacts.run_fsExists]
+  have : (p.operation == .rename || p.operation == .copy) = true := by
+    rcases hop with h | h <;> simp [h]
+  simp only [this, hnew, Bool.and_self, ↓reduceIte]
+  rfl
+
+/-- the new rule is for -R only: without it an existing old name still wins, whatever the operation -/
+theorem guessFilepath_forward_old (p : Patch) (s : DState) (hold : p.oldPath ≠ devNull)
+    (hex : (s.fs.stat (absPath s p.oldPath)).isSome = true) :
+    (guessFilepath p false).run s = (.ok p.oldPath, s) := by
+  unfold guessFilepath
+  rw [DriverFacts.run_bind, DriverFacts.run_fsExists]
+  simp only [Bool.false_and, Bool.false_eq_true, ↓reduceIte]
+  rw [DriverFacts.run_bind, DriverFacts.run_fsExists]
+  have : (p.oldPath != devNull) = true := by simp [hold]
+  simp only [this, hex, Bool.and_self, ↓reduceIte]
+  rfl
+
+/-- the swap case: both "a" and "b" are there; reversing `rename a → b` starts from "b", applying it from "a" -/
+example (s : DState) (hs : s = { fs := { nodes := [([97], .file [] 0o644), ([98], .file [] 0o644)] } }) :
+    (guessFilepath { operation := .rename, oldPath := [97], newPath := [98] } true).run s = (.ok [98], s) ∧
+    (guessFilepath { operation := .rename, oldPath := [97], newPath := [98] } false).run s = (.ok [97], s) :=
+  ⟨guessFilepath_reverse_made _ _ (Or.inl rfl) (by subst hs; decide),
+   guessFilepath_forward_old _ _ (by decide +kernel) (by subst hs; decide)⟩
+
 end PatchModel.C01
 
 #print axioms PatchModel.C01.C01_section
 #print axioms PatchModel.C01.C01_section_flat
 #print axioms PatchModel.C01.C01_section_needs_parent
 #print axioms PatchModel.C01.C15_section_fidelity
+#print axioms PatchModel.C01.guessFilepath_reverse_made
+#print axioms PatchModel.C01.guessFilepath_forward_old
